@@ -170,7 +170,7 @@ def rule_store(ctx):
             if used:
                 continue
             n += 1
-            dst_ty = c.gargs[1] if len(c.gargs) > 1 else ''
+            dst_ty = _arg_ty(body, c, 2) or (c.gargs[1] if len(c.gargs) > 1 else '')
             good = roles.resource_node is not None and roles.resource_node in dst_ty
             R.ob('STORE-add-ignored', body.path + '#' + '/'.join(sorted(ctx.dep_variants(body, c.args[3]))), good,
                  'the ignored Result is for an edge to a resource node, which has no outgoing edges and cannot close a cycle' if good
@@ -180,7 +180,7 @@ def rule_store(ctx):
         if body.crate != 'pie' or body.is_test_code():
             continue
         for c in body.find_calls(lambda c: is_callee(ctx, c, roles.add_dep) or is_callee(ctx, c, roles.dep_mut)):
-            src_ty = c.gargs[0] if c.gargs else ''
+            src_ty = _arg_ty(body, c, 1) or (c.gargs[0] if c.gargs else '')
             good = roles.task_node is not None and roles.task_node in src_ty
             R.ob('STORE-edge-source', body.path + '#' + c.name, good, 'edge sources are task nodes' if good else 'edge source has type %s' % src_ty, ctx.where(body, c.bb), props=('C07', 'C08'))
     # who-may-remove: graph edge/node removal only through reset
@@ -487,7 +487,9 @@ def _rule_td_check(ctx, chk):
              props=('C01', 'C02', 'C18') if vg[e] == 'neg-err' else ('C01', 'C02', 'C09'))
     # positive verdict never leads to a None (execute) exit without consulting the remaining dependencies
     none_defs = _none_exit_blocks(chk)
-    seen = chk.reach([0], avoid=ctx.both(inf, lambda n: n in neg))
+    # (a leftover reserved dependency is a reason too: `Dependency::ReservedRequire => return None`)
+    reserved = {('e', bb_, k_) for (bb_, k_), g_ in chk.guards.items() if g_.kind == 'enum' and g_.extra == roles.dep_enum and g_.variants() == frozenset(['ReservedRequire'])}
+    seen = chk.reach([0], avoid=ctx.both(inf, lambda n: n in neg or n in reserved))
     bad = [b for b in none_defs if b in seen]
     R.ob('TD-check-none-reasons', key, not bad, 'the check answers "execute" only after a dependency was reported inconsistent or its check failed (or no output is cached)' if not bad
          else 'the check can answer "execute" although every dependency checked so far was consistent:\n' + chk.fmt_path(chk.witness(seen, bad[0])), ctx.where(chk), props=('C02', 'C09'))
@@ -541,6 +543,14 @@ def _nonnone_exit_blocks(body):
 
 # ================================================================================================
 # verdict origin / delegation (C09, C18 X4)
+
+def _arg_ty(body, c, i):
+    """the declared type of the local handed over as argument i (however generic the callee's signature is)"""
+    if i >= len(c.args) or c.args[i][0] not in ('c', 'm') or c.args[i][1][1]:
+        return ''
+    return body.local_ty(c.args[i][1][0])
+
+
 # ================================================================================================
 
 def rule_verdict(ctx):
@@ -579,7 +589,8 @@ def rule_verdict(ctx):
     # 2. booleans returned by the is_consistent family originate in is_none() of that check
     fam = [b for b in F.bodies.values() if b.crate == 'pie' and b.kind == 'AssocFn' and b.name in ('is_consistent', 'is_consistent_top_down', 'is_consistent_bottom_up')
            and not b.is_test_code()]
-    R.floor('VERDICT', 'is_consistent* implementations', len(fam), 5, props=('C09', 'C18'))
+    # four trait methods (task / resource dependency x top-down / bottom-up); the shared inherent helper is optional
+    R.floor('VERDICT', 'is_consistent* implementations', len(fam), 4, props=('C09', 'C18'))
     for b in fam:
         _verdict_fn(ctx, b)
 
@@ -587,6 +598,8 @@ def rule_verdict(ctx):
 def _verdict_fn(ctx, b):
     R, roles, F = ctx.R, ctx.roles, ctx.F
     key = b.path
+    from rules_graph import _ret_defs
+    rdefs = _ret_defs(b)  # looking through the return place of an inlined helper
     inf = ctx.infeasible(b)
     ret_ty = b.local_ty(0)
     checks = b.find_calls(lambda c: c.qname.endswith('Dependency::check') or c.qname in ('pie::OutputChecker::check', 'pie::ResourceChecker::check'))
@@ -602,12 +615,39 @@ def _verdict_fn(ctx, b):
         R.undecided('VERDICT-origin', key, 'no checker call found', ctx.where(b), props=('C09',))
         return
     chk = checks[0]
+    # `check(..).map(|i| i.is_none()).map_err(Box::from)`: the combinator form of `Ok(check(..)?.is_none())` - `map` keeps an Err, `map_err`
+    # keeps it an Err, and the Ok payload is the closure's answer
+    if type_head(ret_ty) == 'std::result::Result':
+        chain = []
+        cur = b.orig_local(0)
+        while len(cur) == 1 and next(iter(cur)).kind == 'call' and not next(iter(cur)).path:
+            c = b.calls[next(iter(cur)).key]
+            if c.qname in ('std::result::Result::map', 'std::result::Result::map_err') and len(c.args) == 2:
+                chain.append(c)
+                cur = b.orig_operand(c.args[0])
+            else:
+                break
+        maps = [c for c in chain if c.qname.endswith('::map')]
+        if chain and len(maps) == 1 and ctx.base_call_bbs(cur) == {chk.bb} and all(not o.path for o in cur):
+            cb = None
+            for o in b.orig_operand(maps[0].args[1]):
+                if o.kind == 'aggr':
+                    cb = F.bodies.get(b.blocks[o.key[0]]['stmts'][o.key[1]]['rv']['ak'].get('closure'))
+            good = False
+            if cb is not None:
+                ro = cb.orig_local(0)
+                good = len(ro) == 1 and all(o.kind == 'call' and cb.calls[o.key].qname == 'std::option::Option::is_none'
+                                            and all(x.kind == 'arg' and x.key == 2 for x in cb.orig_operand(cb.calls[o.key].args[0])) for o in ro)
+            R.ob('VERDICT-origin', key, good, 'the verdict is exactly "the checker reported no inconsistency" (is_none of its answer, mapped over the Result)' if good
+                 else 'the Ok payload of the verdict is not is_none of the checker\'s answer', ctx.where(b), props=('C09', 'C01', 'C03'))
+            R.ob('VERDICT-err-propagates', key, True, 'an error of the checker is returned as an error (Result::map / map_err keep an Err an Err)', ctx.where(b, chk.bb), props=('C18',))
+            return
     # find bool producers
     payloads = []
     if ret_ty == 'bool':
         payloads = [('ret', b.orig_local(0))]
     else:
-        for d in b.defs.get(0, []):
+        for d in rdefs:
             if d[0] == 'stmt' and d[3]['k'] == 'aggr' and d[3]['ak'].get('variant') == 'Ok':
                 payloads.append(('ok', b.orig_operand(F.operand(d[3]['ops'][0]))))
     good = True
@@ -633,11 +673,11 @@ def _verdict_fn(ctx, b):
     # constants: `true` is only admissible under the None arm of a match on the check result; `false` under Some / type mismatch
     const_sites = []
     if ret_ty == 'bool':
-        for d in b.defs.get(0, []):
+        for d in rdefs:
             if d[0] == 'stmt' and d[3]['k'] == 'use' and 'k' in d[3]['op']:
                 const_sites.append((d[1], d[3]['op']['k'].get('int')))
     else:
-        for d in b.defs.get(0, []):
+        for d in rdefs:
             if d[0] == 'stmt' and d[3]['k'] == 'aggr' and d[3]['ak'].get('variant') == 'Ok' and 'k' in d[3]['ops'][0]:
                 const_sites.append((d[1], d[3]['ops'][0]['k'].get('int')))
     if good:
@@ -666,7 +706,7 @@ def _verdict_fn(ctx, b):
         tested = any(g.kind == 'enum' and chk.bb in ctx.base_call_bbs(g.origins) and all(not o.path for o in g.origins) for g in b.guards.values())
         seen = b.reach([chk.bb], avoid=ctx.both(inf, avoid))
         kinds = set()
-        for d in b.defs.get(0, []):
+        for d in rdefs:
             if d[1] in seen and d[1] != chk.bb:
                 if d[0] == 'stmt' and d[3]['k'] == 'aggr':
                     kinds.add(d[3]['ak'].get('variant'))
@@ -726,9 +766,11 @@ def resolve_bottom_up(ctx):
     def one(name, cands):
         r[name] = cands[0] if len(cands) == 1 else None
         roles.note(name, cands[0].path if len(cands) == 1 else 'UNRESOLVED %s' % [c.path for c in cands])
-    one('q_add', [b for b in qm if b.find_calls(lambda c: c.qname == 'std::vec::Vec::push')])
-    one('q_sort', [b for b in qm if b.find_calls(lambda c: c.qname in SORT_FNS)])
-    removers = [b for b in qm if b.find_calls(lambda c: c.qname in ('std::vec::Vec::pop', 'std::vec::Vec::remove', 'std::vec::Vec::swap_remove', 'std::vec::Vec::retain', 'std::vec::Vec::drain', 'std::vec::Vec::truncate'))]
+    def has(b, pred):  # in the method or in one of its closures (`found.map(|(i, n)| { vec.swap_remove(i); .. })`)
+        return any(x.find_calls(pred) for x in F.with_closures(b))
+    one('q_add', [b for b in qm if has(b, lambda c: c.qname == 'std::vec::Vec::push')])
+    one('q_sort', [b for b in qm if has(b, lambda c: c.qname in SORT_FNS)])
+    removers = [b for b in qm if has(b, lambda c: c.qname in ('std::vec::Vec::pop', 'std::vec::Vec::remove', 'std::vec::Vec::swap_remove', 'std::vec::Vec::retain', 'std::vec::Vec::drain', 'std::vec::Vec::truncate'))]
     one('q_pop', [b for b in removers if b.argc == 2])
     one('q_pop_least', [b for b in removers if b.argc == 3])
     bu = [b for b in F.bodies.values() if b.crate == 'pie' and not b.is_test_code() and b.impl_self and 'BottomUpContext' in b.impl_self and b.kind == 'AssocFn']
@@ -1009,9 +1051,26 @@ def rule_bottomup(ctx):
     for b in F.bodies.values():
         if b.crate == 'pie' and b.impl_trait == 'pie::Context' and b.name == 'require' and 'BottomUpContext' in (b.impl_self or ''):
             mcs = [c for c in b.calls.values() if is_callee(ctx, c, mk)]
+            node_arg = 2
+            if not mcs:
+                # make-consistent reached through a method of one of pie's own traits called on a type parameter (a generic `require` shared by
+                # both contexts, inlined here): the implementation for this context type, if it forwards its node parameter to make-consistent
+                for c in b.calls.values():
+                    if F.callee_body(c) is not None or not (c.trait or '').startswith('pie::') or b.blocks[c.bb]['cleanup']:
+                        continue
+                    own = [x for x in F.callee_candidates(c) if x.crate == 'pie' and not x.is_test_code() and type_head(x.impl_self or '') == type_head(b.impl_self or '')]
+                    if len(own) != 1:
+                        continue
+                    ks = [k for k in own[0].calls.values() if is_callee(ctx, k, mk)]
+                    if len(ks) == 1:
+                        po = own[0].orig_operand(ks[0].args[2])
+                        if len(po) == 1 and all(o.kind == 'arg' and not o.path for o in po) and next(iter(po)).key - 1 < len(c.args):
+                            mcs = [c]
+                            node_arg = next(iter(po)).key - 1
+                            break
             if not mcs:
                 continue
-            no = b.orig_operand(mcs[0].args[2])
+            no = b.orig_operand(mcs[0].args[node_arg])
             ins = {c.bb for c in b.find_calls(lambda c: c.qname == 'std::collections::HashSet::insert' and ctx.has_field(b.orig_operand(c.args[0]), roles.f_consistent)
                                              and b.orig_operand(c.args[1]) == no)}
             w = b.must_after(mcs[0].bb, ctx.both(ctx.infeasible(b), lambda n: n in ins))
